@@ -150,7 +150,7 @@ spec fn covered(idx: Seq<u32>, range: ChunkRange, start: u32) -> bool { range.en
 //@ rules umerkle.R4d cacheacct.R18
 //@ contract
     requires
-        hdr_ok(header.chunk_byte_indices@), header.chunk_byte_indices@.len() < 0x1000_0000,
+        hdr_ok(header.chunk_byte_indices@), header.chunk_byte_indices@.len() <= u32::MAX,    // deserialize reads the count as u32
         start <= range.start < range.end,      // find_match only returns items with item.start <= range.start
     ensures
         final(file_contents).bytes() == old(file_contents).bytes(),
